@@ -25,6 +25,7 @@ type Listener struct {
 	s        *xmpp.Session
 	h        *Handler
 	c        chan *Conn
+	done     chan struct{}
 	expected map[string]expected
 	eLock    sync.Mutex
 }
@@ -33,11 +34,17 @@ type Listener struct {
 // If the listener is closed by either end pending Accept calls unblock and
 // return an error.
 func (l *Listener) Accept() (net.Conn, error) {
-	conn, ok := <-l.c
-	if !ok {
+	select {
+	case <-l.done:
+		return nil, errors.New("ibb: accept on closed listener")
+	default:
+	}
+	select {
+	case conn := <-l.c:
+		return conn, nil
+	case <-l.done:
 		return nil, errors.New("ibb: accept on closed listener")
 	}
-	return conn, nil
 }
 
 // Expect is like Accept except that it accepts a specific session that has been
@@ -96,7 +103,13 @@ func (l *Listener) Close() error {
 	l.h.lM.Lock()
 	defer l.h.lM.Unlock()
 	delete(l.h.l, l.s.LocalAddr().String())
-	close(l.c)
+	// The accept channel itself is never closed: the serve loop may be sending
+	// an incoming stream on it.
+	select {
+	case <-l.done:
+	default:
+		close(l.done)
+	}
 	return nil
 }
 
